@@ -76,3 +76,4 @@ import Spydr.Eblif.FragCheck
 #print axioms Spydr.Eblif.eblif_onNet_exact_text
 #print axioms Spydr.Eblif.leaf_port_kept
 #print axioms Spydr.Eblif.eblif_roundtrip_leaf_ports
+#print axioms Spydr.Eblif.eblif_roundtrip_leaf_dirs
